@@ -63,10 +63,11 @@ import os as _os
 _ALL = ["C%02d" % i for i in range(1, 21)]
 # rewrites that leave the model (reported as `cannot analyse`, exit 2, by the listed checks - never as a violation):
 #   r45: a NamedTuple WITH a method bundles the six creator options (R11.8 cannot take it apart)
+#   r77: like r58, the c4 codec rewritten (divmod, digit table constant, decoder as a range loop): R1.4 does not recognise the digit accumulation
 #   r48: the manifest reader dispatches through dictionaries and setattr() with computed names (call graph soundness condition)
 #   r53: the manifest reader split into per-tag helpers that receive a parser-state object (reader decision table not readable off `parse`)
 #   r58: the c4 codec rewritten with divmod / rjust / f-string prepending (R1.4 recognises the digit accumulation by shape)
-_NO_ALARM_ONLY = {"r45": ["C11"], "r48": _ALL, "r53": ["C01", "C02", "C03", "C08", "C10", "C11", "C19"], "r58": ["C01", "C05", "C07"]}
+_NO_ALARM_ONLY = {"r45": ["C11"], "r48": _ALL, "r53": ["C01", "C02", "C03", "C08", "C10", "C11", "C19"], "r58": ["C01", "C05", "C07"], "r77": ["C01", "C05", "C07"]}
 for _d in sorted(_glob.glob(_os.path.join(_os.path.dirname(_os.path.abspath(__file__)), "refactors", "r*"))):
     _r = _os.path.basename(_d)
     _weak = _NO_ALARM_ONLY.get(_r, [])
